@@ -41,6 +41,9 @@ def run(ctx: Ctx) -> None:
     check_prepare_reschedule(ctx, "R-C04-STEP")  # N+1 executions *per scheduling*: a new scheduling starts with a fresh counter
     message_retry(ctx)
     check_route(ctx, "R-C04-ROUTE", ops=("requeue",))
+    from .brokers import redis_op_fields
+
+    redis_op_fields(ctx, "R-C04-STEP")  # the parameters with the incremented counter are really stored on requeue (HSET overwrites)
     from .C05 import rounding
     from .delay import whole_duration_rule
 
